@@ -1,19 +1,21 @@
 #!/usr/bin/env python3
 """Copies the sub-agent mutants that were re-validated here into /verif/seeded/<id>/m<k>/ with meta.json."""
 import json, os, shutil, glob, sys
+ROOT = os.environ.get('MUTROOT', '/tmp/mut')
+OFFSET = int(os.environ.get('SEED_OFFSET', '0'))  # round 2: m1 -> m3
 matrix = {}
 for l in open(sys.argv[1]):
     name, caught = l.strip().split(': ')
     pid, k = name.split()
     matrix[(pid, k)] = [c for c in caught.split(',') if c and c != 'none']
 n = 0
-for vf in sorted(glob.glob('/tmp/mut/*/out/m*.validated.json')):
-    out = os.path.dirname(vf); pid = out.split('/')[3]; k = os.path.basename(vf).split('.')[0]
+for vf in sorted(glob.glob(ROOT + '/*/out/m*.validated.json')):
+    out = os.path.dirname(vf); pid = out.split('/')[-2]; k = os.path.basename(vf).split('.')[0]
     v = json.load(open(vf))
     if not all([v['builds'], v['suite_passes_with_mutant'], v['demo_fails_with_mutant'], v['demo_passes_without_mutant']]):
         print('skip (not validated):', pid, k, v); continue
     meta = json.load(open(f'{out}/{k}.meta.json'))
-    dst = f'/verif/seeded/{pid}/{k}'
+    dst = f'/verif/seeded/{pid}/m{int(k[1:]) + OFFSET}'
     shutil.rmtree(dst, ignore_errors=True); os.makedirs(dst)
     shutil.copy(f'{out}/{k}.patch.diff', f'{dst}/patch.diff')
     demos = []
@@ -34,6 +36,7 @@ for vf in sorted(glob.glob('/tmp/mut/*/out/m*.validated.json')):
             'builds': v['builds'], 'existing_suite_passes_with_change': v['suite_passes_with_mutant'],
             'demo_fails_with_change': v['demo_fails_with_mutant'], 'demo_passes_without_change': v['demo_passes_without_mutant'],
         },
+        'round': 2 if OFFSET else 1,
         'caught_by_checks': matrix.get((pid, k), []),
         'caught_by_own_property_check': pid in matrix.get((pid, k), []),
         'checked_with': 'tools/matrix.sh (scratch worktree + ./bin/sa check-all)',
